@@ -7,6 +7,11 @@ BASE = json.load(open('/root/.vp/BASELINE.json'))['cmd'] if os.path.exists('/roo
 
 # id -> (engine, category, technique, level text, level note, design ref)
 CHECKS = {
+ "C08": ("E2-space", "model_checking",
+         "exhaustive enumeration of all Next/Advance programs up to a length bound over all internal-id targets, on every searcher of a bounded query family and every index shape",
+         "For every index shape (multi-segment layouts with deletions, a fully deleted segment, zero segments) × every query tree of the family (leaves, 9 compound forms over ordered pairs, depth-3 nestings) × searcher options × {scorch, upsidedown} × {slice, heap} disjunction: every program of Next / Advance(t) calls up to the bound, t ranging over ALL internal ids above the last returned one (matching, non-matching, deleted, segment boundaries, past the end), is executed on a fresh real searcher and compared with the Next-only enumeration, which itself must be strictly ascending and equal to the reference evaluator's live match set.",
+         "Program length ≤ 2 (quick) / 3 (thorough); backward and repeated targets are outside the contract.",
+         "DESIGN.md §5 C08"),
  "C02": ("E2-space", "model_checking",
          "exhaustive enumeration of a bounded input space (corpora × layouts × query trees × options × engines) against a three-valued reference evaluator",
          "Every member of the product {all subsets ≤3 of a 12-document alphabet + full corpus} × 3 physical layouts (one segment, segment per document, churn with deletes/updates) × query trees (≈85 leaves, all ordered pairs under 16 compound forms, a depth-3 family) × 8 request option sets × {scorch, upsidedown} × 5 searcher tuning settings is run on the real index and compared with an independent evaluator over the analysed tokens of the live documents: hit set, duplicates, Total, option independence.",
